@@ -144,7 +144,12 @@ def check_stream(ctx, b, cipher, mac, comp, wit):
 def run_suite(ctx, rng, idx, cipher, mac, comp, lengths, sample=False, window=False):
     exp = expected(cipher, mac)
     role = "client" if idx % 2 == 0 else "server"
-    b = pb.Bench(rng, cipher or "aes128-ctr", mac or "hmac-sha2-256", comp, sender_role=role)
+    # the reverse (inbound) direction of the sending Packetizer gets an unrelated suite:
+    # framing of what is sent must follow the outbound suite only
+    rev = pb.draw_reverse(rng, idx + len(lengths))
+    b = pb.Bench(rng, cipher or "aes128-ctr", mac or "hmac-sha2-256", comp, sender_role=role, rev=rev)
+    if cipher is not None:
+        ctx.count("suites_out_%s_in_%s" % (pb.framing_mode(cipher, mac), pb.framing_mode(*rev)))
     if cipher is not None:
         b.rekey()
     wit0 = dict(cipher=cipher, mac=mac, comp=comp, role=role)
